@@ -7,6 +7,7 @@ import Swiftness.Model.Diluted
 import Swiftness.Model.Table
 import Driver.AstLoad
 import Swiftness.Prover.MerkleProver
+import Swiftness.Prover.FriProver
 
 namespace Swiftness.Driver
 open Swiftness Swiftness.Proto
@@ -49,6 +50,35 @@ def gvArray? (fields : List String) (s : String) : Option (Array Felt) := do
   if kvs.length ≠ fields.length then none else
   let vals ← fields.mapM fun f => (kvs.find? (·.1 == f)).map (·.2)
   pure vals.toArray
+
+def fmtRows (rs : List (List Felt)) : String :=
+  if rs.isEmpty then "-" else ";".intercalate (rs.map fun r => ":".intercalate (r.map hx))
+
+/-- FRI layer witnesses: `leaves|auths;leaves|auths` (`-` = no layers) -/
+def friWitness? (s : String) : Option (List Fri.LayerWitness) :=
+  if s == "-" then some [] else (s.splitOn ";").mapM fun l =>
+    match l.splitOn "|" with
+    | [a, b] => do pure ⟨← felts? a, ← felts? b⟩
+    | _ => none
+
+def fmtFriWitness (ws : List Fri.LayerWitness) : String :=
+  if ws.isEmpty then "-" else ";".intercalate (ws.map fun w => s!"{hxs w.leaves}|{hxs w.auths}")
+
+def friConfig? (lis nl last steps inner : String) : Option Fri.Config := do
+  pure { logInputSize := ← felt? lis, nLayers := ← felt? nl, innerLayers := ← (← rows? inner).mapM tcfg?,
+         friStepSizes := ← felts? steps, logLastLayerDegreeBound := ← felt? last }
+
+/-- `fri_commit` followed by `fri_verify` -/
+def friRun (H : Hashes) (t : Transcript) (cfg : Fri.Config) (roots lastCoefs queries values points : List Felt)
+    (w : List Fri.LayerWitness) : Outcome Transcript :=
+  match Fri.commit H t roots lastCoefs cfg with
+  | .ok (t', c) =>
+    match Fri.verify H queries c values points w with
+    | .ok () => .ok t'
+    | .err e => .err e
+    | .panic s => .panic s
+  | .err e => .err e
+  | .panic s => .panic s
 
 /-- answer one case line; `none` = malformed line -/
 def answer? (ctx : Ctx) (H : Hashes) (_stone6 : Bool) (toks : List String) : Option String :=
@@ -123,6 +153,31 @@ def answer? (ctx : Ctx) (H : Hashes) (_stone6 : Bool) (toks : List String) : Opt
     let rows : Array (List Felt) := Array.ofFn (n := 2 ^ hgt) fun i => (cells.drop (i.val * n)).take n
     let (root, vals, auth) := Prover.buildTableAuth H (← felt? nf) hgt rows (← nats? q)
     pure s!"ok {hx root} {hxs vals} {hxs auth}"
+  | ["fri_build", nf, steps, last, lnc, coeffs, q, d, c] => do
+    let nf ← felt? nf; let steps ← nats? steps; let last ← nat? last; let lnc ← nat? lnc
+    let inst := Prover.friProve H nf steps last lnc (← felts? coeffs) (← nats? q) ⟨← felt? d, ← felt? c⟩
+    let cfg := Prover.friConfig nf steps last lnc
+    let ws : List Fri.LayerWitness := inst.layers.map fun l => ⟨l.leaves, l.auths⟩
+    pure s!"ok {hx cfg.logInputSize} {hx cfg.nLayers} {hx cfg.logLastLayerDegreeBound} {hxs cfg.friStepSizes} {fmtRows (cfg.innerLayers.map fun t => [t.nColumns, t.vector.height, t.vector.nFriendly])} {hxs inst.roots} {hxs inst.lastCoefs} {hxs ((← nats? q).map Felt.ofNat)} {hxs inst.values} {hxs inst.points} {fmtFriWitness ws}"
+  | ["fri", d, c, lis, nl, last, steps, inner, roots, lastCoefs, queries, values, points, w] => do
+    let cfg ← friConfig? lis nl last steps inner
+    pure (out (fun (t : Transcript) => s!"{hx t.digest} {hx t.counter}")
+      (friRun H ⟨← felt? d, ← felt? c⟩ cfg (← felts? roots) (← felts? lastCoefs) (← felts? queries) (← felts? values)
+        (← felts? points) (← friWitness? w)))
+  | ["fri_formula", vals, e, x, cs] => do
+    pure (out hx (Fri.friFormula (← felts? vals) (← felt? e) (← felt? x) (← felt? cs)))
+  | ["next_layer", qi, qy, qx, sibs, cs, e] => do
+    let qi ← felts? qi; let qy ← felts? qy; let qx ← felts? qx
+    if qi.length ≠ qy.length ∨ qi.length ≠ qx.length then none else
+    let qs := (qi.zip (qy.zip qx)).map fun (i, y, x) => (⟨i, y, x⟩ : Fri.LayerQuery)
+    pure (out (fun (r : Fri.NextLayer) =>
+        s!"{hxs (r.nextQueries.map (·.index))} {hxs (r.nextQueries.map (·.yValue))} {hxs (r.nextQueries.map (·.xInvValue))} {hxs r.verifyIndices} {hxs r.verifyYValues}")
+      (Fri.computeNextLayer qs (← felts? sibs) (← felt? cs) (← felt? e)))
+  | ["last_layer", qy, qx, coefs] => do
+    let qy ← felts? qy; let qx ← felts? qx
+    if qy.length ≠ qx.length then none else
+    let qs := (qy.zip qx).map fun (y, x) => (⟨0, y, x⟩ : Fri.LayerQuery)
+    pure (out unit (Fri.verifyLastLayer qs (← felts? coefs)))
   | "comp_inner" :: layout :: mask :: coeffs :: point :: tgen :: gv :: rest => do
     let L ← ctx.find? layout
     let dp ← match rest with | [] => some #[] | [d] => (nats? d).map (·.toArray) | _ => none
